@@ -54,5 +54,5 @@ def run(st, tier, seed):
                         docs.append((lines_[0].split("#")[0].strip(), "".join(re.sub(r"#.*", "", l) + "\n" for l in t.split("\n")[t.split("\n").index(lines_[0]) + 1:])))
         parsecorr_comp.check_docs(res, drv, docs[:120 if quick else 4000], "text-bundle")
         if not quick:
-            parsecorr_comp.check_docs(res, drv, [(d, t) for _, _, d, t in parsecorr_comp.example_docs()], "text-examples")
+            parsecorr_comp.check_docs(res, drv, [(d, t) for _, _, d, t in parsecorr_comp.example_docs()[0] if t is not None], "text-examples")
     return res
